@@ -64,6 +64,7 @@ func info(config []byte) []byte { return append([]byte("tls ech\x00"), config...
 // Sealer is the sending side of one ECH HPKE context.
 type Sealer struct {
 	S     *hpke.Sender
+	seal  func(aad, pt []byte) ([]byte, error) // set instead of S by NewForgedSealer
 	Enc   []byte
 	Suite Suite
 	ID    byte
@@ -106,7 +107,7 @@ func (s *Sealer) SealInto(outer *Hello, echIdx int, encodedInner []byte, withEnc
 	}
 	o.Exts[echIdx] = Ext{ExtECH, e.Bytes()}
 	aad := o.Body()
-	ct, err := s.S.Seal(aad, encodedInner)
+	ct, err := s.SealRaw(aad, encodedInner)
 	if err != nil {
 		return nil, err
 	}
@@ -119,7 +120,12 @@ func (s *Sealer) SealInto(outer *Hello, echIdx int, encodedInner []byte, withEnc
 }
 
 // SealRaw seals pt with explicit aad (for deliberately wrong associated data).
-func (s *Sealer) SealRaw(aad, pt []byte) ([]byte, error) { return s.S.Seal(aad, pt) }
+func (s *Sealer) SealRaw(aad, pt []byte) ([]byte, error) {
+	if s.seal != nil {
+		return s.seal(aad, pt)
+	}
+	return s.S.Seal(aad, pt)
+}
 
 // Opener is the receiving side of one ECH HPKE context.
 type Opener struct {
